@@ -248,6 +248,23 @@ func c17sExec(raw json.RawMessage) interface{} {
 	// context.Background() in the code under test)
 	cancel()
 	// un-park the leaked adjustment goroutines so that they do not pile up over the run
+	if bigSeen {
+		// no grow-based un-parking next to maxCapacity (see the "set" case): give the held units back instead,
+		// a parked shrink is then granted and its goroutine ends
+		mu.Lock()
+		var held []int
+		for k := range granted {
+			if !released[k] {
+				released[k] = true
+				held = append(held, k)
+			}
+		}
+		mu.Unlock()
+		for range held {
+			s.Release()
+		}
+		c17sWaitSettled()
+	}
 	for i := 0; i < 64 && !bigSeen; i++ {
 		c17sWaitSettled()
 		_, ws := c17sPeek(s)
